@@ -189,8 +189,10 @@ func Adv(rng *rand.Rand) (ref.Pos, bool) {
 	p.White = true
 	p.Full = 1 + rng.IntN(60)
 	p.Half = rng.IntN(20)
-	theme := rng.IntN(10)
+	theme := rng.IntN(12)
 	switch {
+	case theme >= 10:
+		advDoublePush(rng, &p)
 	case theme < 4:
 		advCheck(rng, &p)
 	case theme < 7:
@@ -326,8 +328,45 @@ func advCheck(rng *rand.Rand, p *ref.Pos) {
 		case 2: // double push from the second rank
 			if b[1] == 3 {
 				put(p, b[0], 1, ref.P)
-				if rng.IntN(3) == 0 {
-					put(p, b[0], 2, int8(-1-rng.IntN(5))) // blocked double push
+				switch rng.IntN(4) {
+				case 0:
+					put(p, b[0], 2, int8(-1-rng.IntN(5))) // double push blocked by an enemy piece
+				case 1:
+					// blocked by an own pawn on the third rank which is itself pinned along the rank
+					// or a diagonal, so that it cannot step forward to interpose either
+					if put(p, b[0], 2, ref.P) {
+						d := dirs8[[]int{0, 2, 4, 5, 6, 7}[rng.IntN(6)]]
+						for k := 1; k < 8; k++ {
+							f, r := b[0]+d[0]*k, 2+d[1]*k
+							if !onb(f, r) {
+								break
+							}
+							if p.Sq[r*8+f] != 0 {
+								if p.Sq[r*8+f] == ref.K && k > 0 {
+									// king found on one side: put the pinner on the other side
+									for j := 1; j < 8; j++ {
+										ff, rr := b[0]-d[0]*j, 2-d[1]*j
+										if !onb(ff, rr) || p.Sq[rr*8+ff] != 0 {
+											break
+										}
+										if rng.IntN(2) == 0 || j == 3 {
+											v := int8(-ref.Q)
+											if d[0] != 0 && d[1] != 0 {
+												if rng.IntN(2) == 0 {
+													v = -ref.B
+												}
+											} else if rng.IntN(2) == 0 {
+												v = -ref.R
+											}
+											put(p, ff, rr, v)
+											break
+										}
+									}
+								}
+								break
+							}
+						}
+					}
 				}
 			}
 		default:
@@ -353,6 +392,79 @@ func advCheck(rng *rand.Rand, p *ref.Pos) {
 				put(p, kf+d[0], kr+d[1], int8(1+rng.IntN(5)))
 			}
 		}
+		place(rng, p, -ref.Q)
+	}
+}
+
+// advDoublePush: a slider check whose line crosses the fourth rank on a file with a white pawn
+// at home; the third-rank square of that file is empty / an enemy piece / an own piece / an own
+// pawn (pinned along the rank or not); the king's other neighbours are mostly blocked, so that
+// "interpose by double push" decides between mate and no mate.
+func advDoublePush(rng *rand.Rand, p *ref.Pos) {
+	f := rng.IntN(8)
+	d := dirs8[rng.IntN(8)]
+	k1, k2 := 1+rng.IntN(2), 1+rng.IntN(3)
+	kf, kr := f-d[0]*k1, 3-d[1]*k1
+	cf, cr := f+d[0]*k2, 3+d[1]*k2
+	if !onb(kf, kr) || !onb(cf, cr) || (kf == f && kr < 3) {
+		return
+	}
+	put(p, kf, kr, ref.K)
+	v := int8(-ref.Q)
+	if rng.IntN(2) == 0 {
+		if d[0] != 0 && d[1] != 0 {
+			v = -ref.B
+		} else {
+			v = -ref.R
+		}
+	}
+	put(p, cf, cr, v)
+	put(p, f, 1, ref.P)
+	switch rng.IntN(5) {
+	case 0:
+	case 1:
+		put(p, f, 2, int8(-1-rng.IntN(5)))
+	case 2:
+		put(p, f, 2, int8(2+rng.IntN(4)))
+	default:
+		put(p, f, 2, ref.P)
+		// pin it along the third rank when the king stands there
+		if kr == 2 {
+			side := 1
+			if kf > f {
+				side = -1
+			}
+			for k := 1; k < 8; k++ {
+				ff := f + side*k
+				if !onb(ff, 2) || p.Sq[2*8+ff] != 0 {
+					break
+				}
+				if rng.IntN(2) == 0 || !onb(ff+side, 2) {
+					pv := int8(-ref.R)
+					if rng.IntN(3) == 0 {
+						pv = -ref.Q
+					}
+					put(p, ff, 2, pv)
+					break
+				}
+			}
+		}
+	}
+	// block the king's neighbourhood with own men (not on the check line)
+	for _, n := range dirs8 {
+		nf, nr := kf+n[0], kr+n[1]
+		if !onb(nf, nr) || p.Sq[nr*8+nf] != 0 || (n == d) {
+			continue
+		}
+		if rng.IntN(10) < 7 {
+			w := int8(ref.P)
+			if nr == 0 || nr == 7 || rng.IntN(3) == 0 {
+				w = int8(2 + rng.IntN(4))
+			}
+			put(p, nf, nr, w)
+		}
+	}
+	if rng.IntN(2) == 0 {
 		place(rng, p, -ref.Q)
 	}
 }
